@@ -49,4 +49,54 @@ def inXorFragment (inputs : List String) (defs : List (String × BExp)) (rets : 
      | [(r, e)] => !isSym e || r.startsWith "_ret"
      | _ => false)
 
+/-! ## The general class (`QV.C02.C02_general_partial`; proofs in `QV/Proofs/CompilerGen*.lean`)
+
+Definition lists with shared sub-expressions (cache hits inside and across statements), names defined
+more than once (re-binding, also of an argument) and several return bits. -/
+
+mutual
+/-- expressions of the general class: symbols of `scope`, constants, `Not` / `And` / `Or` / `Xor` of any arity;
+no constant (or negated constant) directly under `Xor` (`compile_xor` would take the constant's qubit as its
+accumulator; `_symplify_exp` removes these before the real compiler sees them); no `Or` / `Xor` without
+arguments (sympy cannot build them; their ancilla is never the target of a gate, `uncompute` frees it but
+leaves it marked and cached) -/
+def wfExpG (scope : List String) : BExp → Bool
+  | .sym n => scope.contains n
+  | .tt => true
+  | .ff => true
+  | .not a => wfExpG scope a
+  | .and l => wfExpListG scope l
+  | .or l => wfExpListG scope l && !l.isEmpty
+  | .xor l => wfExpListG scope l && l.all (fun a => !xorArgBad a) && !l.isEmpty
+  | _ => false
+def wfExpListG (scope : List String) : List BExp → Bool
+  | [] => true
+  | a :: as => wfExpG scope a && wfExpListG scope as
+end
+
+/-- `r = Not(r)`: `compile_not` negates the qubit of `r` in place (step 0 of `compile_not`) -/
+def selfNot (r : String) : BExp → Bool
+  | .not (.sym n) => n == r
+  | _ => false
+
+/-- definition lists of the general class: every left-hand side is not reserved (`TRUE`, `FALSE`, `anc_…`) –
+it may be an argument or an earlier left-hand side (re-binding) –, every right-hand side is `wfExpG` over the
+arguments and the earlier left-hand sides, and no definition is the in-place self-negation `r = Not(r)`
+(the qubit of `r` is flipped in place; every other name bound to the same qubit by an earlier alias
+`b = r` changes with it – the compiler is wrong there, see `docs/notes/C02_C03_C06.md`) -/
+def genDefs (scope : List String) : List (String × BExp) → Bool
+  | [] => true
+  | (r, e) :: rest => !reservedName r && wfExpG scope e && !selfNot r e && genDefs (scope ++ [r]) rest
+
+/-- the class of `QV.C02.C02_general_partial`: argument names distinct and not reserved, `genDefs`, every
+requested return name is an argument or a left-hand side -/
+def inGeneral (inputs : List String) (defs : List (String × BExp)) (rets : List String) : Bool :=
+  decide inputs.Nodup && inputs.all (fun n => !reservedName n) && genDefs inputs defs &&
+    rets.all (fun r => inputs.contains r || defs.any (fun p => p.1 == r))
+
+/-- what the driver reports as `in_general`: the general class or one of the older single-definition classes
+(which also admit the degenerate `Or` / `Xor` without arguments) -/
+def inGeneralClass (inputs : List String) (defs : List (String × BExp)) (rets : List String) : Bool :=
+  inGeneral inputs defs rets || inFragment inputs defs rets || inFragmentConst inputs defs rets
+
 end QV.Compiler
